@@ -12,6 +12,7 @@ import glob
 import itertools
 import json
 import os
+import signal
 from typing import Any, Dict, Iterator, List, Optional, Tuple
 
 from .. import common, dump, impl, kgen
@@ -449,123 +450,132 @@ def fam_after_help(tier: str) -> Iterator[Dict[str, Any]]:
 # --------------------------------------------------------------------------------------------------
 
 SAUX = cfgblock("B", ['bool "b"']) + cfgblock("S", ['string "s"', 'default "v"']) + cfgblock("TS", ['string "ts"', 'default "x"'])
+QNAME = {'"': "dq", "'": "sq"}
+QCHAR = {"dq": '"', "sq": "'"}
 
 
 def str_fragments(q: str) -> Dict[str, Tuple[str, str]]:
-    """feature -> (source text, value after escape / reference processing) for a literal quoted with `q`"""
+    """feature -> (source text, value after escape / reference processing) of a literal quoted with `q`"""
     o = "'" if q == '"' else '"'
     return {
-        "other": (f"it{o}s", f"it{o}s"),          # the other kind of quote, unescaped (docs: "Name of the ship's captain")
-        "escq": (f"a\\{q}b", f"a{q}b"),           # escaped quote of the own kind
-        "escbs": ("c\\\\d", "c\\d"),              # escaped backslash
-        "esco": (f"e\\{o}f", f"e{o}f"),           # escaped quote of the other kind
-        "macro": ("$(MAC)", "42"),                # preprocessor macro reference
-        "envp": ("$(MCKENV)", "envval"),          # environment through the macro form
-        "envb": ("${MCKENV}", "envval"),          # environment, documented form
-        "envd": ("$MCKENV", "envval"),            # environment, plain form
-        "hash": ("g#h", "g#h"),                   # comment character inside the literal
+        "other": (f"it{o}s", f"it{o}s"),    # the other kind of quote, unescaped (language.rst: "Name of the ship's captain")
+        "escq": (f"a\\{q}b", f"a{q}b"),     # escaped quote of the own kind
+        "escbs": ("c\\\\d", "c\\d"),        # escaped backslash
+        "esco": (f"e\\{o}f", f"e{o}f"),     # escaped quote of the other kind
+        "macro": ("$(MAC)", "42"),          # preprocessor macro reference
+        "envp": ("$(MCKENV)", "envval"),    # environment variable through the macro form
+        "envb": ("${MCKENV}", "envval"),    # environment variable, documented form
+        "envd": ("$MCKENV", "envval"),      # environment variable, plain form
+        "hash": ("g#h", "g#h"),             # comment character inside the literal
     }
 
 
+ESC_FEATURES = ("escq", "escbs", "esco")
 REF_FEATURES = ("macro", "envp", "envb", "envd")
-QNAME = {'"': "dq", "'": "sq"}
-
-
-def str_literals(tier: str, q: str) -> List[Tuple[str, str, str]]:
-    """(feature label, literal source incl. quotes, value) for every literal of the bounded family"""
-    fr = str_fragments(q)
-    quick_feats = ("other", "escq", "escbs", "macro", "envb", "hash")
-    feats = quick_feats if tier == "quick" else tuple(fr)
-    out: List[Tuple[str, str, str]] = []
-
-    def add(seq: Tuple[str, ...], joiner: str, lead: bool, trail: bool) -> None:
-        src = joiner.join(fr[f][0] for f in seq) if seq else "w"
-        val = joiner.join(fr[f][1] for f in seq) if seq else "w"
-        mods = (["blank"] if joiner == " " and len(seq) > 1 else []) + (["lead"] if lead else []) + (["trail"] if trail else [])
-        if lead:
-            src, val = " " + src, " " + val
-        if trail:
-            src, val = src + " ", val + " "
-        label = ">".join(seq) if seq else "plain"
-        if mods:
-            label += "~" + "~".join(mods)
-        out.append((label, q + src + q, val))
-
-    maxn = 2 if tier == "quick" else 3
-    seqs: List[Tuple[str, ...]] = [()]
-    for n in range(1, maxn + 1):
-        seqs += list(itertools.permutations(feats, n))
-    for seq in seqs:
-        add(seq, "-", False, False)
-    # blanks: inside (between two features), leading, trailing, both
-    for seq in seqs:
-        if len(seq) > (1 if tier == "quick" else 2):
-            continue
-        for lead, trail in ((True, False), (False, True), (True, True)):
-            add(seq, "-", lead, trail)
-    for seq in seqs:
-        if len(seq) == 2:
-            add(seq, " ", False, False)
-            if tier != "quick":
-                add(seq, " ", True, True)
-    return out
+ALL_FEATURES = ("other", "escq", "escbs", "esco", "macro", "envp", "envb", "envd", "hash")
+QUICK_FEATURES = ("other", "escq", "escbs", "macro", "envb", "hash")
 
 
 def _cfgT(lines: List[str]) -> str:
     return cfgblock("T", lines)
 
 
-# position -> (quote kinds generated there, renderer(literal) -> body below the mainmenu line or None for whole-file positions)
-STR_POSITIONS: Dict[str, Tuple[str, Any]] = {
-    "inline_prompt": ("\"'", lambda x: _cfgT([f"bool {x}"])),
-    "inline_prompt_if": ("\"'", lambda x: _cfgT([f"bool {x} if B"])),
-    "prompt": ("\"'", lambda x: _cfgT(["bool", f"prompt {x}"])),
-    "prompt_if": ("\"'", lambda x: _cfgT(["bool", f"prompt {x} if B"])),
-    "choice_prompt": ("\"'", lambda x: f"{I}choice\n{I}{I}prompt {x}\n\n" + cfgblock("T", ['bool "t"'], ind=I * 2) + f"{I}endchoice\n"),
-    "warning": ("\"'", lambda x: _cfgT(['bool "t"', f"warning {x}"])),
-    "comment_title": ("\"'", lambda x: f"{I}comment {x}\n\n" + _cfgT(['bool "t"'])),
-    "menu_title": ('"', lambda x: f"{I}menu {x}\n\n" + cfgblock("T", ['bool "t"'], ind=I * 2) + f"{I}endmenu\n"),
-    "mainmenu_title": ('"', None),
-    "default": ("\"'", lambda x: _cfgT(['string "t"', f"default {x}"])),
-    "default_if": ("\"'", lambda x: _cfgT(['string "t"', f"default {x} if B", 'default "z"'])),
-    "default_if_cmp_esc": ("\"'", lambda x: _cfgT(['string "t"', f'default {x} if S = "k\\\\l"', 'default "z"'])),
-    "default_esc_if_cmp": ("\"'", lambda x: _cfgT(['string "t"', f'default "k\\\\l" if S = {x}', 'default "z"'])),
-    "default_ref_if_cmp": ("\"'", lambda x: _cfgT(['string "t"', f'default "${{MCKENV}}" if S != {x}', 'default "z"'])),
-    "cmp_depends": ("\"'", lambda x: _cfgT(['bool "t"', f"depends on S = {x}"])),
-    "cmp_depends_lhs": ("\"'", lambda x: _cfgT(['bool "t"', f"depends on {x} != S && B"])),
-    "cmp_prompt_if": ("\"'", lambda x: _cfgT(["bool", f'prompt "t" if S = {x}'])),
-    "cmp_if_entry": ("\"'", lambda x: f"{I}if S = {x}\n\n" + cfgblock("T", ['bool "t"'], ind=I * 2) + f"{I}endif\n"),
-    "cmp_menu_visible": ("\"'", lambda x: f'{I}menu "m"\n{I}{I}visible if S != {x}\n\n' + cfgblock("T", ['bool "t"'], ind=I * 2) + f"{I}endmenu\n"),
-    "cmp_select_if": ("\"'", lambda x: _cfgT(['bool "t"', f"select B if S = {x}"])),
-    "set_value": ("\"'", lambda x: _cfgT(['bool "t"', f"set TS={x}"])),
-    "set_default_value": ("\"'", lambda x: _cfgT(['bool "t"', f"set default TS={x} if B"])),
-    "macro_value": ("\"'", lambda x: f"{I}MV = {x}\n\n" + _cfgT(['string "t"', 'default "$(MV)"'])),
-    "rsource_path": ('"', None),
+# position -> (quote kinds generated there, features generated there, renderer(literal) -> text below the mainmenu line).
+# Prompts / titles: the documents mention macro and environment references only for values and expressions, so no reference
+# features there.  menu / mainmenu titles and source paths are documented as DOUBLE-quoted strings.  Macro values and source
+# paths: the documents say nothing about escapes or nested references there, so only quotes / `#` / blanks (paths: + $ENV forms).
+_TXT = ("other", "escq", "escbs", "esco", "hash")
+_VAL = ALL_FEATURES
+STR_POSITIONS: Dict[str, Tuple[str, Tuple[str, ...], Any]] = {
+    "inline_prompt": ("\"'", _TXT, lambda x: _cfgT([f"bool {x}"])),
+    "inline_prompt_if": ("\"'", _TXT, lambda x: _cfgT([f"bool {x} if B"])),
+    "prompt": ("\"'", _TXT, lambda x: _cfgT(["bool", f"prompt {x}"])),
+    "prompt_if": ("\"'", _TXT, lambda x: _cfgT(["bool", f"prompt {x} if B"])),
+    "choice_prompt": ("\"'", _TXT, lambda x: f"{I}choice\n{I}{I}prompt {x}\n\n" + cfgblock("T", ['bool "t"'], ind=I * 2) + f"{I}endchoice\n"),
+    "warning": ("\"'", _TXT, lambda x: _cfgT(['bool "t"', f"warning {x}"])),
+    "comment_title": ("\"'", _TXT, lambda x: f"{I}comment {x}\n\n" + _cfgT(['bool "t"'])),
+    "menu_title": ('"', _TXT, lambda x: f"{I}menu {x}\n\n" + cfgblock("T", ['bool "t"'], ind=I * 2) + f"{I}endmenu\n"),
+    "mainmenu_title": ('"', _TXT, None),
+    "default": ("\"'", _VAL, lambda x: _cfgT(['string "t"', f"default {x}"])),
+    "default_if": ("\"'", _VAL, lambda x: _cfgT(['string "t"', f"default {x} if B", 'default "z"'])),
+    # two literals on one line: the OTHER literal carries the escape / the reference (parser 1 chooses its string scanner per LINE)
+    "default_if_cmp_esc": ("\"'", _VAL, lambda x: _cfgT(['string "t"', f'default {x} if S = "k\\\\l"', 'default "z"'])),
+    "default_esc_if_cmp": ("\"'", _VAL, lambda x: _cfgT(['string "t"', f'default "k\\\\l" if S = {x}', 'default "z"'])),
+    "default_ref_if_cmp": ("\"'", _VAL, lambda x: _cfgT(['string "t"', f'default "${{MCKENV}}" if S != {x}', 'default "z"'])),
+    "cmp_depends": ("\"'", _VAL, lambda x: _cfgT(['bool "t"', f"depends on S = {x}"])),
+    "cmp_depends_lhs": ("\"'", _VAL, lambda x: _cfgT(['bool "t"', f"depends on {x} != S && B"])),
+    "cmp_prompt_if": ("\"'", _VAL, lambda x: _cfgT(["bool", f'prompt "t" if S = {x}'])),
+    "cmp_if_entry": ("\"'", _VAL, lambda x: f"{I}if S = {x}\n\n" + cfgblock("T", ['bool "t"'], ind=I * 2) + f"{I}endif\n"),
+    "cmp_menu_visible": ("\"'", _VAL, lambda x: f'{I}menu "m"\n{I}{I}visible if S != {x}\n\n' + cfgblock("T", ['bool "t"'], ind=I * 2) + f"{I}endmenu\n"),
+    "cmp_select_if": ("\"'", _VAL, lambda x: _cfgT(['bool "t"', f"select B if S = {x}"])),
+    "set_value": ("\"'", _VAL, lambda x: _cfgT(['bool "t"', f"set TS={x}"])),
+    "set_default_value": ("\"'", _VAL, lambda x: _cfgT(['bool "t"', f"set default TS={x} if B"])),
+    "macro_value": ("\"'", ("other", "hash"), lambda x: f"{I}MV = {x}\n\n" + _cfgT(['string "t"', 'default "$(MV)"'])),
+    "rsource_path": ('"', ("other", "hash", "envb", "envd"), None),
 }
-# positions that hold a VALUE (documents: macros / environment references are usable in values and expressions); in
-# prompts and titles the documents do not mention references, so reference features are not generated there
-STR_VALUE_POSITIONS = ("default", "default_if", "default_if_cmp_esc", "default_esc_if_cmp", "default_ref_if_cmp", "cmp_depends", "cmp_depends_lhs", "cmp_prompt_if",
-                       "cmp_if_entry", "cmp_menu_visible", "cmp_select_if", "set_value", "set_default_value", "rsource_path")
+
+
+def strlit_label(seq, joiner: str, lead: bool, trail: bool) -> str:
+    mods = (["blank"] if joiner == " " and len(seq) > 1 else []) + (["lead"] if lead else []) + (["trail"] if trail else [])
+    return (">".join(seq) if seq else "plain") + ("~" + "~".join(mods) if mods else "")
+
+
+def strlit_case(pos: str, qn: str, seq, joiner: str, lead: bool, trail: bool) -> Optional[Dict[str, Any]]:
+    """the program for one literal in one position, or None when that literal is not generated there"""
+    quotes, feats, render = STR_POSITIONS[pos]
+    q = QCHAR[qn]
+    seq = list(seq)
+    if q not in quotes or any(f not in feats for f in seq):
+        return None
+    if len(seq) < 2:
+        joiner = "-"
+    fr = str_fragments(q)
+    src = joiner.join(fr[f][0] for f in seq) if seq else "w"
+    val = joiner.join(fr[f][1] for f in seq) if seq else "w"
+    if lead:
+        src, val = " " + src, " " + val
+    if trail:
+        src, val = src + " ", val + " "
+    lit = q + src + q
+    head = "MAC = 42\n\n"
+    if pos == "mainmenu_title":
+        files = {"Kconfig": f"mainmenu {lit}\n\n" + head + SAUX + cfgblock("T", ['bool "t"'])}
+    elif pos == "rsource_path":
+        files = {"Kconfig": mm(head + SAUX + f"{I}rsource {q}Kconfig.{src}{q}\n\n" + cfgblock("TAIL", ['bool "tail"'])), "Kconfig." + val: cfgblock("T", ['bool "t"'], ind="")}
+        lit = f"{q}Kconfig.{src}{q}"
+    else:
+        files = {"Kconfig": mm(head + SAUX + render(lit))}
+    return {"family": "strlit", "construct": f"{pos}/{qn}/{strlit_label(seq, joiner, lead, trail)}", "lit": lit, "files": files,
+            "strlit": {"pos": pos, "q": qn, "seq": seq, "joiner": joiner, "lead": bool(lead), "trail": bool(trail)}}
+
+
+def strlit_shapes(tier: str) -> List[Tuple[Tuple[str, ...], str, bool, bool]]:
+    """(ordered feature sequence, joiner, leading blank, trailing blank) of every literal of the bounded family"""
+    feats = QUICK_FEATURES if tier == "quick" else ALL_FEATURES
+    maxn = 2 if tier == "quick" else 3
+    seqs: List[Tuple[str, ...]] = [()]
+    for n in range(1, maxn + 1):
+        seqs += list(itertools.permutations(feats, n))
+    out = [(seq, "-", False, False) for seq in seqs]
+    for seq in seqs:  # leading / trailing / both blanks
+        if len(seq) <= (1 if tier == "quick" else 2):
+            out += [(seq, "-", lead, trail) for lead, trail in ((True, False), (False, True), (True, True))]
+    for seq in seqs:  # one blank inside the literal
+        if len(seq) == 2:
+            out.append((seq, " ", False, False))
+            if tier != "quick":
+                out.append((seq, " ", True, True))
+    return out
 
 
 def fam_strings(tier: str) -> Iterator[Dict[str, Any]]:
-    for pos, (quotes, render) in STR_POSITIONS.items():
+    shapes_ = strlit_shapes(tier)
+    for pos, (quotes, _feats, _render) in STR_POSITIONS.items():
         for q in quotes:
-            for label, lit, val in str_literals(tier, q):
-                feats = set(label.split("~")[0].split(">"))
-                if pos not in STR_VALUE_POSITIONS and feats & set(REF_FEATURES):
-                    continue
-                head = "MAC = 42\n\n"
-                if pos == "mainmenu_title":
-                    files = {"Kconfig": f"mainmenu {lit}\n\n" + head + SAUX + cfgblock("T", ['bool "t"'])}
-                elif pos == "rsource_path":
-                    if "/" in val or "\0" in val:
-                        continue
-                    files = {"Kconfig": mm(head + SAUX + f"{I}rsource {q}Kconfig.{lit[1:-1]}{q}\n\n" + cfgblock("TAIL", ['bool "tail"'])),
-                             "Kconfig." + val: cfgblock("T", ['bool "t"'], ind="")}
-                else:
-                    files = {"Kconfig": mm(head + SAUX + render(lit))}
-                yield {"family": "strlit", "construct": f"{pos}/{QNAME[q]}/{label}", "lit": lit, "files": files}
+            for seq, joiner, lead, trail in shapes_:
+                p = strlit_case(pos, QNAME[q], seq, joiner, lead, trail)
+                if p is not None:
+                    yield p
 
 
 def fam_fixtures(tier: str) -> Iterator[Dict[str, Any]]:
@@ -580,15 +590,17 @@ def fam_fixtures(tier: str) -> Iterator[Dict[str, Any]]:
                 yield {"family": "fixture", "construct": os.path.relpath(f, root), "path": f}
 
 
-FAMILIES = (fam_options, fam_expr, fam_structure, fam_lexical, fam_negative, fam_source_twice, fam_source_nested, fam_after_help, fam_fixtures)
+FAMILIES = (fam_options, fam_expr, fam_structure, fam_lexical, fam_negative, fam_source_twice, fam_source_nested, fam_after_help, fam_strings, fam_fixtures)
 
 
 def items(tier: str, seed: int):
     out = []
     for fam in FAMILIES:
         out.extend(fam(tier))
-    # group small programs so that per-item overhead stays low
-    return [out[i:i + 8] for i in range(0, len(out), 8)]
+    # group small programs so that per-item overhead stays low; groups are strided (program i goes to group i mod n) so that
+    # neighbouring programs -- which tend to share a slow or non-terminating construct -- land in different work items
+    n = max(1, (len(out) + 7) // 8)
+    return [out[i::n] for i in range(n)]
 
 
 # --------------------------------------------------------------------------------------------------
@@ -598,7 +610,19 @@ def items(tier: str, seed: int):
 ENV = {"MCKENV": "envval", "IDF_TARGET": "chipa", "IDF_ENV_FPGA": "", "TEST_ENV_SET": "EHLO", "MAX_NUMBER_OF_MOTORS": "4"}
 
 
-def parse_with(path: str, version: int):
+class _ParseTimeout(BaseException):
+    pass
+
+
+def _on_alarm(signum, frame):
+    raise _ParseTimeout()
+
+
+PARSE_TIMEOUT_S = 20.0         # a parse of these programs takes 1..300 ms
+PARSE_TIMEOUT_STRLIT_S = 2.0   # the string-literal programs are ~15 lines (parser 2: ~35 ms)
+
+
+def parse_with(path: str, version: int, timeout: float = PARSE_TIMEOUT_S):
     kl = impl.lib()
     c = impl.core()
     old = {}
@@ -611,10 +635,18 @@ def parse_with(path: str, version: int):
     cwd = os.getcwd()
     try:
         os.chdir(os.path.dirname(path))
+        signal.signal(signal.SIGALRM, _on_alarm)
         try:
-            k = kl.Kconfig(path, parser_version=version)
+            signal.setitimer(signal.ITIMER_REAL, timeout)
+            try:
+                k = kl.Kconfig(path, parser_version=version)
+            finally:
+                signal.setitimer(signal.ITIMER_REAL, 0)
             k.report.reset()
             return ("ok", k)
+        except _ParseTimeout:
+            # the parser did not return: reported like an exception that is not a KconfigError
+            return ("other_exception", f"NoTermination(>{timeout:g}s)")
         except c.KconfigError as e:
             return ("kconfig_error", f"{type(e).__name__}")
         except RecursionError as e:
@@ -630,6 +662,7 @@ def parse_with(path: str, version: int):
                     break
             return ("other_exception", f"{type(e).__name__}@{site}")
     finally:
+        signal.setitimer(signal.ITIMER_REAL, 0)
         os.chdir(cwd)
         for k, v in old.items():
             if v is None:
@@ -652,20 +685,82 @@ def outputs(k) -> Dict[str, str]:
 PERT = {"bool": ["y", "n"], "int": ["7"], "hex": ["0x2A"], "string": ["pert"], "float": ["2.5"]}
 
 
+def _first_classes(p: Dict[str, Any], timeout: float) -> Tuple[tuple, ...]:
+    """failure classes of one program as far as parsing and the structural dump go (used to minimise string literals)"""
+    path = impl.put_program(p["files"])
+    s1, k1 = parse_with(path, 1, timeout)
+    s2, k2 = parse_with(path, 2, timeout)
+    out = []
+    if s1 != "ok" or s2 != "ok":
+        if s1 == "other_exception":
+            out.append(("parser1_raises", k1))
+        if s2 == "other_exception":
+            out.append(("parser2_raises", k2))
+        if (s1 == "ok") != (s2 == "ok") and "other_exception" not in (s1, s2):
+            out.append(("accept_reject", 1 if s1 == "ok" else 2))
+        return tuple(out)
+    d1, d2 = dump.structural_dump(k1), dump.structural_dump(k2)
+    if d1 != d2:
+        out.append(("structure_differs", dump.field_class(dump.first_diff(d1, d2))))
+    return tuple(out)
+
+
+_CLASS_MEMO: Dict[str, Tuple[tuple, ...]] = {}
+
+
+def _strlit_trigger(p: Dict[str, Any], cls: Optional[tuple]) -> str:
+    """smallest literal (greedy: drop one feature / one blank at a time, left to right, while the SAME failure class remains) of
+    the same position and quote kind; names the triggering construct in the violation signature"""
+    d = p["strlit"]
+    cur = (tuple(d["seq"]), d["joiner"], d["lead"], d["trail"])
+    if cls is None:
+        return strlit_label(*cur)
+    progress = True
+    while progress:
+        progress = False
+        seq, joiner, lead, trail = cur
+        cands = [(seq[:i] + seq[i + 1:], joiner, lead, trail) for i in range(len(seq))]
+        if joiner == " " and len(seq) > 1:
+            cands.append((seq, "-", lead, trail))
+        if lead:
+            cands.append((seq, joiner, False, trail))
+        if trail:
+            cands.append((seq, joiner, lead, False))
+        for cand in cands:
+            q = strlit_case(d["pos"], d["q"], *cand)
+            if q is None:
+                continue
+            key = q["construct"]
+            if key not in _CLASS_MEMO:
+                if len(_CLASS_MEMO) > 20000:
+                    _CLASS_MEMO.clear()
+                _CLASS_MEMO[key] = _first_classes(q, PARSE_TIMEOUT_STRLIT_S)
+            if cls in _CLASS_MEMO[key]:
+                cur = (tuple(q["strlit"]["seq"]), q["strlit"]["joiner"], q["strlit"]["lead"], q["strlit"]["trail"])
+                progress = True
+                break
+    return strlit_label(*cur)
+
+
 def check_one(p: Dict[str, Any], r: common.Result) -> None:
     fam, construct = p["family"], p["construct"]
     if "path" in p:
         path = p["path"]
-        text = open(path, encoding="utf-8", errors="replace").read()
     else:
         path = impl.put_program(p["files"])
-        text = p["files"]["Kconfig"]
     case = {k: v for k, v in p.items()}
-    sigbase = {"family": fam, "construct": construct if fam != "structure" else fam}
-    s1, k1 = parse_with(path, 1)
-    s2, k2 = parse_with(path, 2)
+    timeout = PARSE_TIMEOUT_STRLIT_S if fam == "strlit" else PARSE_TIMEOUT_S
+
+    def sb(cls: Optional[tuple]) -> Dict[str, Any]:
+        if fam == "strlit":
+            # position + quote kind + the minimal literal that still shows this failure class
+            return {"family": fam, "construct": f"{p['strlit']['pos']}/{p['strlit']['q']}", "trigger": _strlit_trigger(p, cls)}
+        return {"family": fam, "construct": construct if fam != "structure" else fam}
+
+    s1, k1 = parse_with(path, 1, timeout)
+    s2, k2 = parse_with(path, 2, timeout)
     r.evals += 1
-    label = f"[{fam}/{construct}{' expr=' + p['expr'] if 'expr' in p else ''}]"
+    label = f"[{fam}/{construct}{' expr=' + p['expr'] if 'expr' in p else ''}{' literal=' + p['lit'] if 'lit' in p else ''}]"
     if fam == "negative":
         # sources outside the documented language: the statement does not say what must happen; recorded, never alarmed
         r.outcome(("negative", construct, s1, s2))
@@ -673,34 +768,35 @@ def check_one(p: Dict[str, Any], r: common.Result) -> None:
         if (s1 == "ok") != (s2 == "ok") or "other_exception" in (s1, s2):
             r.count("negative_disagreements_informational")
         return
+    if fam == "strlit":
+        r.count("string_literal_programs")
     if s1 != "ok" or s2 != "ok":
         r.outcome((s1, k1 if s1 != "ok" else "", s2, k2 if s2 != "ok" else ""))
         if s1 == "other_exception":
-            r.violation({"kind": "parser1_raises_non_kconfig_error", "exc": k1, **sigbase}, f"{label} parser 1 raised {k1}", case)
+            r.violation({"kind": "parser1_raises_non_kconfig_error", "exc": k1, **sb(("parser1_raises", k1))}, f"{label} parser 1 raised {k1}", case)
         if s2 == "other_exception":
-            r.violation({"kind": "parser2_raises_non_kconfig_error", "exc": k2, **sigbase}, f"{label} parser 2 raised {k2} (parser 1: {s1})", case)
+            r.violation({"kind": "parser2_raises_non_kconfig_error", "exc": k2, **sb(("parser2_raises", k2))}, f"{label} parser 2 raised {k2} (parser 1: {s1})", case)
         if (s1 == "ok") != (s2 == "ok") and "other_exception" not in (s1, s2):
-            r.violation({"kind": "accept_reject_disagree", "accepts": 1 if s1 == "ok" else 2, **sigbase}, f"{label} parser 1: {s1} {k1 if s1 != 'ok' else ''}; parser 2: {s2} {k2 if s2 != 'ok' else ''}", case)
-        if fam == "negative" and s1 == "ok" and s2 == "ok":
-            pass
+            acc = 1 if s1 == "ok" else 2
+            r.violation({"kind": "accept_reject_disagree", "accepts": acc, **sb(("accept_reject", acc))}, f"{label} parser 1: {s1} {k1 if s1 != 'ok' else ''}; parser 2: {s2} {k2 if s2 != 'ok' else ''}", case)
         return
-    if fam == "negative":
-        r.count("negative_accepted_by_both")
     d1, d2 = dump.structural_dump(k1), dump.structural_dump(k2)
     r.outcome(("ok", json.dumps(d1, sort_keys=True, default=str)))
     if d1 != d2:
         path_ = dump.first_diff(d1, d2)
-        r.violation({"kind": "structure_differs", "field": dump.field_class(path_), **sigbase}, f"{label} dumps differ at {path_}: parser1={_at(d1, path_)!r} parser2={_at(d2, path_)!r}", case)
+        fc = dump.field_class(path_)
+        r.violation({"kind": "structure_differs", "field": fc, **sb(("structure_differs", fc))}, f"{label} dumps differ at {path_}: parser1={_at(d1, path_)!r} parser2={_at(d2, path_)!r}", case)
         return
+    sigbase = sb(None) if fam != "strlit" else None
     # outputs: all defaults, then every single-option perturbation
     try:
         o1, o2 = outputs(k1), outputs(k2)
     except Exception as e:  # noqa: BLE001
-        r.violation({"kind": "output_raises", "exc": type(e).__name__, **sigbase}, f"{label} computing outputs raised {type(e).__name__}: {e}", case)
+        r.violation({"kind": "output_raises", "exc": type(e).__name__, **(sigbase or sb(None))}, f"{label} computing outputs raised {type(e).__name__}: {e}", case)
         return
     if o1 != o2:
         which = [f for f in o1 if o1[f] != o2[f]]
-        r.violation({"kind": "outputs_differ", "formats": which, "config": "defaults", **sigbase}, f"{label} outputs differ in {which} at defaults", case)
+        r.violation({"kind": "outputs_differ", "formats": which, "config": "defaults", **(sigbase or sb(None))}, f"{label} outputs differ in {which} at defaults", case)
         return
     c = impl.core()
     names = [s.name for s in k1.unique_defined_syms if any(n.prompt for n in s.nodes)]
@@ -715,11 +811,11 @@ def check_one(p: Dict[str, Any], r: common.Result) -> None:
             try:
                 oa, ob = outputs(k1), outputs(k2)
             except Exception as e:  # noqa: BLE001
-                r.violation({"kind": "output_raises", "exc": type(e).__name__, **sigbase}, f"{label} computing outputs with {n}={v} raised {type(e).__name__}: {e}", case)
+                r.violation({"kind": "output_raises", "exc": type(e).__name__, **(sigbase or sb(None))}, f"{label} computing outputs with {n}={v} raised {type(e).__name__}: {e}", case)
                 return
             if oa != ob:
                 which = [f for f in oa if oa[f] != ob[f]]
-                r.violation({"kind": "outputs_differ", "formats": which, "config": "perturbed", **sigbase}, f"{label} outputs differ in {which} with {n}={v}", case)
+                r.violation({"kind": "outputs_differ", "formats": which, "config": "perturbed", **(sigbase or sb(None))}, f"{label} outputs differ in {which} with {n}={v}", case)
                 return
             k1.syms[n].unset_value()
             k2.syms[n].unset_value()
